@@ -307,3 +307,155 @@ func TestDequeIteratorsOverAnyContent(t *testing.T) {
 		vkit.Case(tFill, vkit.Hash(*c), forced > 0 && len(c.Ops) > c.Capacity, []string{fmt.Sprintf("capacity:%d", c.Capacity)}, func() any { return *c })
 	})
 }
+
+// ---------------------------------------------------------------------
+// a queue iterator next to producers that are blocked on the full queue
+
+// The iterator shares the queue's "something changed" condition variable
+// with the producers parked in BlockingAdd.  Whatever the order in which
+// they parked and whoever a wake-up reaches first, at quiescence every item
+// that is in the queue has been yielded by an iterator that was started on
+// the empty queue and keeps reading: it does not stay blocked while an item
+// it has not seen is present.  (Items that were removed may or may not have
+// been yielded.)
+
+const tBlockedProducers = "TestQueueIteratorBesideBlockedProducers"
+
+type besideCase struct {
+	Capacity int      `json:"capacity"`
+	Iters    int      `json:"iterators"`
+	Script   []string `json:"script"` // add | remove | blocking-add
+	Procs    int      `json:"gomaxprocs"`
+}
+
+func runBeside(c *besideCase) (string, string) {
+	if c.Procs > 0 {
+		old := runtime.GOMAXPROCS(c.Procs)
+		defer runtime.GOMAXPROCS(old)
+	}
+	limit := vkit.Limit()
+	q, err := pubsub.NewQueue[int](pubsub.QueueOptions{HardLimit: c.Capacity, SoftQuota: c.Capacity})
+	if err != nil {
+		return "harness", err.Error()
+	}
+	ctx, cancel := context.WithCancel(context.Background())
+	var mu sync.Mutex
+	seen := make([]map[int]bool, c.Iters)
+	present := map[int]bool{}
+	var iwg, pwg sync.WaitGroup
+	for i := 0; i < c.Iters; i++ {
+		seen[i] = map[int]bool{}
+		it := q.Iterator()
+		iwg.Add(1)
+		go func(i int) {
+			defer iwg.Done()
+			for {
+				v, err := it.ReadOne(ctx)
+				if err != nil {
+					return
+				}
+				mu.Lock()
+				seen[i][v] = true
+				mu.Unlock()
+			}
+		}(i)
+	}
+	defer func() {
+		cancel()
+		_ = q.Close()
+		done := make(chan struct{})
+		go func() { iwg.Wait(); pwg.Wait(); close(done) }()
+		select {
+		case <-done:
+		case <-time.After(limit):
+		}
+	}()
+	// the iterators park on the empty queue before anything else happens
+	vkit.Eventually(limit, func() bool {
+		return vkit.CountWhere("[sync.Cond.Wait", "sync.(*Cond).Wait", "github.com/tychoish/fun/pubsub.") >= c.Iters
+	})
+	caughtUp := func() (bool, string) {
+		mu.Lock()
+		defer mu.Unlock()
+		for v := range present {
+			for i := range seen {
+				if !seen[i][v] {
+					return false, fmt.Sprintf("iterator %d has not yielded %d, which is in the queue", i, v)
+				}
+			}
+		}
+		return true, ""
+	}
+	for si, op := range c.Script {
+		v := si + 1
+		switch op {
+		case "add":
+			if q.Add(v) == nil {
+				mu.Lock()
+				present[v] = true
+				mu.Unlock()
+			}
+		case "remove":
+			if r, ok := q.Remove(); ok {
+				mu.Lock()
+				delete(present, r)
+				mu.Unlock()
+			}
+		case "blocking-add":
+			pwg.Add(1)
+			go func() {
+				defer pwg.Done()
+				// present before the call returns is fine: the item is
+				// only required once it is in
+				if q.BlockingAdd(ctx, v) == nil {
+					mu.Lock()
+					present[v] = true
+					mu.Unlock()
+				}
+			}()
+		}
+		why := ""
+		if !vkit.Eventually(limit, func() bool { var ok bool; ok, why = caughtUp(); return ok }) {
+			return "blocked", fmt.Sprintf("at quiescence after step %d (%s, capacity %d, Len %d): %s - the iterator stays blocked although it keeps reading and nothing was closed or cancelled", si, op, c.Capacity, q.Len(), why)
+		}
+	}
+	return "", ""
+}
+
+func TestQueueIteratorBesideBlockedProducers(t *testing.T) {
+	var rc besideCase
+	if ok, err := vkit.ReplayCase(tBlockedProducers, &rc); err != nil {
+		t.Fatal(err)
+	} else if ok {
+		for i := 0; i < 30; i++ {
+			if k, why := runBeside(&rc); why != "" {
+				vkit.Fail(t, tBlockedProducers, "C20:queue-beside-producers/"+k, rc, "%s (repetition %d)", why, i)
+			}
+		}
+		return
+	}
+	reps := vkit.Pick(2, 4)
+	rapid.Check(t, func(t *rapid.T) {
+		if vkit.AlreadyFailed(tBlockedProducers) {
+			return
+		}
+		c := &besideCase{
+			Capacity: rapid.IntRange(1, 3).Draw(t, "capacity"),
+			Iters:    rapid.IntRange(1, 2).Draw(t, "iterators"),
+			Script:   rapid.SliceOfN(rapid.SampledFrom([]string{"add", "add", "remove", "remove", "blocking-add", "blocking-add"}), 2, 14).Draw(t, "script"),
+			Procs:    rapid.SampledFrom([]int{1, 2, 4, 16}).Draw(t, "gomaxprocs"),
+		}
+		for i := 0; i < reps; i++ {
+			if k, why := runBeside(c); why != "" {
+				vkit.Fail(t, tBlockedProducers, "C20:queue-beside-producers/"+k, *c, "%s (repetition %d)", why, i)
+			}
+		}
+		blocking := 0
+		for _, o := range c.Script {
+			if o == "blocking-add" {
+				blocking++
+			}
+		}
+		vkit.CaseN(tBlockedProducers, vkit.Hash(*c), reps, blocking > 0 && len(c.Script) > c.Capacity, []string{fmt.Sprintf("capacity:%d", c.Capacity)}, func() any { return *c })
+	})
+}
